@@ -1738,6 +1738,14 @@ func (x *Exec) builtin(b *ssa.Builtin, args []Value, c *ssa.CallCommon) Value {
 		}
 		ch.Closed = true
 		return nil
+	case "ssa:wrapnilchk":
+		// wrapper for a value-receiver method called through a pointer: panics on nil, else returns the pointer
+		if p, ok := args[0].(*Pointer); ok {
+			if p == nil {
+				x.abort("PANIC", "value method called using nil pointer")
+			}
+			return p
+		}
 	case "clear":
 		if m, ok := args[0].(*MapV); ok {
 			if m != nil {
